@@ -70,7 +70,8 @@ func init() {
 	for _, n := range []string{"Info", "Get", "GetConditional", "GetVersion", "Put", "Activate", "DeleteVersion", "Delete"} {
 		c06.Harnesses = append(c06.Harnesses, &HarnessSpec{Name: "verifHarnessC06" + n, Pkg: "db", Stubs: stubs,
 			Params: map[string]int{"secrets": 2, "versions": 2}, ThoroughParams: map[string]int{"secrets": 3, "versions": 3},
-			ExpectReach: []string{"end-denied", "end-sink-failed"}, Desc: "DB." + n + ": sealed audit record before effect/disclosure; fail-closed on sink faults"})
+			ExpectReach: []string{"end-denied", "end-sink-failed"}, Desc: "DB." + n + ": sealed audit record before effect/disclosure; fail-closed on sink faults; the record names the secret the caller named, also for names that are not valid UTF-8",
+			ModelOnlyLabels: map[string]string{"record-content": illNote, "denial-record": illNote, "effect-after-sealed-record": illNote, "disclosure-after-sealed-record": illNote}})
 	}
 	for _, n := range []string{"UnchangedPollSilent", "List", "WriteEntries", "ConcurrentWriters"} {
 		c06.Harnesses = append(c06.Harnesses, &HarnessSpec{Name: "verifHarnessC06" + n, Pkg: "db", Stubs: stubs,
@@ -107,6 +108,8 @@ func init() {
 	}
 	propRegistry = append(propRegistry, c14)
 }
+
+const illNote = "a name that is not valid UTF-8 exists only as an abstract mark on a symbolic string (illFormedIf); native replays build well-formed names"
 
 var dbEnvStubs = map[string]string{
 	"(github.com/tailscale/setec/acl.Rules).Allow": "verifAllowAll",
